@@ -2,7 +2,6 @@ package c12
 
 import (
 	"context"
-	"os"
 	"fmt"
 	"sort"
 	"strconv"
@@ -43,6 +42,7 @@ type liM struct {
 	res   string
 	last  int64 // observed: last successful insert / renewal
 	cadOk bool  // observed: a CompareAndDelete issued for it returned true
+	dl    int64 // retry deadline of the current renewal round (the timer armed last before the CompareAndSwap)
 }
 
 type apiM struct {
@@ -70,6 +70,7 @@ type exec struct {
 	held    []map[uint32]bool // keys possibly in each participant's leadership map
 	prev    map[uint32]string // storage view after the previous batch
 	vals    map[int]map[string]bool
+	extKeys map[uint32]bool
 	unexpl  bool // a violation was observed that neither known finding explains
 }
 
@@ -150,9 +151,16 @@ func (e *exec) liByGid(gid int64) *liM {
 func (e *exec) reconcile() {
 	for changed := true; changed; {
 		changed = false
-		for _, l := range e.lis {
-			for e.reconcileLi(l) {
-				changed = true
+		// goroutines woken at the same instant ran concurrently: the one that found the map entry
+		// (now at a gate) is linearised before the one that found nothing (returned)
+		for pass := 0; pass < 2; pass++ {
+			for _, l := range e.lis {
+				if (e.r.pend(l.gid) != nil) != (pass == 0) {
+					continue
+				}
+				for e.reconcileLi(l) {
+					changed = true
+				}
 			}
 		}
 		for p := range e.api {
@@ -170,7 +178,7 @@ func (e *exec) reconcileLi(l *liM) bool {
 	case "wait":
 		if pc != nil && pc.op == "cas" {
 			e.emitGate(fmt.Sprintf("Tick %d", l.id), pc)
-			l.ph = "cas"
+			l.ph, l.dl = "cas", e.r.armed(l.gid)
 			return true
 		}
 		if !alive {
@@ -190,7 +198,9 @@ func (e *exec) reconcileLi(l *liM) bool {
 			return true
 		}
 		if !alive {
-			if l.ctx.Err() == nil {
+			// left the retry select and returned: through the deadline (release found nothing in
+			// the map) when that is due, else through ctx.Done
+			if e.r.nowNs() >= l.dl {
 				e.emit(fmt.Sprintf("Deadline %d", l.id), "ONone")
 			} else {
 				e.emit(fmt.Sprintf("Exit %d", l.id), "ONone")
@@ -242,8 +252,6 @@ func (e *exec) reconcileAPI(p int) bool {
 	part := e.r.parts[p]
 	pc := e.r.pend(part.gid)
 	switch a.ph {
-	case "called": // an API call was just started: where did it get to?
-		return false
 	case "relwait":
 		if ret := part.takeRet(); ret != nil {
 			e.emit(fmt.Sprintf("WaitDone %d", p), "ORetNil")
@@ -278,12 +286,6 @@ func (e *exec) bindNew(l *liM) {
 	sort.Slice(ids, func(i, j int) bool { return ids[i] < ids[j] })
 	if len(ids) > 0 {
 		l.gid = ids[len(ids)-1]
-	}
-	if len(ids) != 1 && os.Getenv("C12_DEBUG") != "" {
-		fmt.Fprintf(os.Stderr, "bindNew li %d: candidates %v\n", l.id, ids)
-		for id, s := range e.gs {
-			fmt.Fprintf(os.Stderr, "  g%d [%s] seen=%v pend=%v\n%s\n", id, s[0], e.seenG[id], e.r.pend(id) != nil, s[1])
-		}
 	}
 	for _, id := range ids {
 		e.seenG[id] = true
@@ -515,6 +517,7 @@ func (e *exec) apply(c choice) bool {
 		e.r.extDelete(c.K)
 		e.emit(fmt.Sprintf("ExtDelete %d", c.K), "ONone")
 		e.tags["ext-delete"] = true
+		e.extKeys[c.K] = true
 	}
 	if e.err != nil {
 		return true
@@ -524,10 +527,12 @@ func (e *exec) apply(c choice) bool {
 	return true
 }
 
-// noteCad remembers (observation only) that the CompareAndDelete of a release succeeded: the
+// noteCad remembers (observation only) that the CompareAndDelete of a release took effect: the
 // releasing goroutine's own context, or for an API call the participant's latest context of that key
 func (e *exec) noteCad(p int, pc *pcall) {
-	if pc.res != "true" {
+	// took effect = the record was there before the call and is gone now (also when the call
+	// then reported an error)
+	if _, still := e.r.readKey(pc.key); still || e.prev[pc.key] != pc.val {
 		return
 	}
 	if l := e.liByGid(pc.gid); l != nil {
@@ -614,7 +619,7 @@ func (e *exec) judge(now int64) {
 			}
 		}
 		for _, b := range e.lis[i+1:] {
-			if b.ctx.Err() == nil && a.k == b.k && a.p != b.p {
+			if b.ctx.Err() == nil && a.k == b.k && a.p != b.p && !e.extKeys[a.k] {
 				e.tags["two-live-leaders"] = true
 				switch {
 				case a.cadOk || b.cadOk:
